@@ -9,7 +9,11 @@ prop("C08", pkg="c08",
           "and on EACH of these encodings the truncation family again (cut exactly before the inserted field, <= 32 cuts inside it, the cut exactly after it, the cut that "
           "drops only the final STOP - through Unmarshal and a Decoder - and every proper prefix for each sixth insertion: plain io.EOF only for the empty input), the trailing "
           "bytes, every required field removed in turn, and every field (and non-empty container element type) replaced by another wire type under strict mode; "
-          "or (10%) 1-12 random Reader method calls on random bytes; or (3%) a 'bigcount' case: a list (of bool, i8, i16, i32, i64, double, string or struct), set or map (keys i16/i32/i64/"
+          "or (10%) 1-12 random Reader method calls on random bytes; or (~1.1%) a 'bigstr' case: a string or []byte of 65537, 70000 or 131073 bytes (the readers take "
+          "lengths above 64 KiB incrementally) as top-level Unmarshal target, as last element of a top-level list, as last field of a struct, or read through "
+          "Reader.ReadString / ReadBytes, both protocols, cut inside the length prefix, 0 and 1 byte into the body, at the 64 KiB marks of the body, in its middle, 1 byte "
+          "before its end and 1 byte before the end of the input - each cut through Unmarshal and a Decoder over the different io.Reader kinds - and every cut must give an "
+          "unexpected-EOF class error; or (~1.6%) a 'bigcount' case: a list (of bool, i8, i16, i32, i64, double, string or struct), set or map (keys i16/i32/i64/"
           "string) that REALLY holds 1025, 1100, 2048, 2049 or 5000 elements - more than the 1024 the decoder allocates up front - at the top level or nested in a struct, a "
           "pointer-to struct, a list or a map, binary and compact, whose announced count is then inflated to N+1, 4N, 1000N, 2^26 and 2^31-1 (also on an encoding cut in the "
           "middle of the elements): each decode must be rejected and is measured on its own against the bytes available. Thorough tier only: a native go fuzzing campaign FuzzThriftDecode(data, sel, proto) of 90 s on 16 "
